@@ -325,7 +325,28 @@ def apply_op(w, op):
             if obj is None:
                 from hl7apy.factories import datatype_factory
                 obj = datatype_factory(dt, val, w.v, 2)
-            setattr(el, w.spelled(name, op.get('spell', 'name')), obj)
+            bad = op.get('bad', 0)
+            if bad == 1:
+                # an object built elsewhere (TOLERANT) holding one character more than the datatype allows
+                mx = getattr(obj, 'max_length', None)
+                if not mx or mx > 5000 or dt in ('NM', 'SI', 'DT', 'TM', 'DTM', 'TN'):
+                    return [], 'skipped'
+                val = 'x' * (mx + 1)
+                obj = T.lib(w.v).BASE_DATATYPES[dt](val, validation_level=2)
+            elif bad == 2:
+                # an object of another base datatype
+                other = 'ST' if dt != 'ST' else 'NM'
+                val = 'abc' if other == 'ST' else '7'
+                obj = T.lib(w.v).BASE_DATATYPES[other](val if other == 'ST' else 7)
+            if bad:
+                # such an object may be refused (by either level): then nothing has happened
+                from hl7apy.exceptions import HL7apyException
+                try:
+                    setattr(el, w.spelled(name, op.get('spell', 'name')), obj)
+                except (HL7apyException, ValueError):
+                    return [], 'skipped'
+            else:
+                setattr(el, w.spelled(name, op.get('spell', 'name')), obj)
             _model_set(w, name, 0, val)
         elif kind == 'read':
             # navigation below the child (two levels when the tables allow it), with a few observations: no effect on the model
@@ -524,6 +545,8 @@ def op_for(draw, cell):
     op = {'op': kind, 'f': draw(st.sampled_from(names)), 'k': draw(st.integers(0, 3))}
     if kind in ('set', 'del', 'read', 'set_datatype'):
         op['spell'] = draw(st.sampled_from(SPELLS))
+    if kind == 'set_datatype':
+        op['bad'] = draw(st.sampled_from([0, 0, 1, 2]))
     if kind in ('setidx', 'delidx', 'remove', 'set_at'):
         op['i'] = draw(st.integers(-4, 3))
     return op
